@@ -91,6 +91,14 @@ def run(chk):
             realm = core.call_real(lambda: cl.graph_clustering(trip, nodes, method, **kw))
             ops.append({"op": "components", "n": n, "edges": edges})
             checks.append((method, meta, realm, edges, labels))
+    # few small clusters scattered among many isolated nodes (component ids far apart: 0, 2, 16, ...)
+    for nn_, pairs_ in ((30, [(0, 1), (3, 4), (20, 21)]), (40, [(2, 5), (17, 18), (18, 19), (33, 39)]), (24, [(1, 0), (9, 8), (23, 22), (15, 16)])):
+        labels = [f"s{i}" for i in range(nn_)]
+        trip_ = [(a_, b_, 1) for a_, b_ in pairs_] + [(b_, a_, 1) for a_, b_ in pairs_]
+        for method_ in ("cc", "multilevel"):
+            ops.append({"op": "graph_clustering_cc" if method_ == "cc" else "components", "n": nn_, "edges": [[t[0], t[1]] for t in trip_]})
+            checks.append((method_, {"xs": f"{nn_} labels s0..", "k": None, "engine": "scattered-pairs", "nodes": "list", "n_edges": len(trip_), "pairs": pairs_},
+                           core.call_real(lambda trip_=trip_, labels=labels, method_=method_: cl.graph_clustering(trip_, labels, method_)), [[t[0], t[1]] for t in trip_], labels))
     # the shortest neighbour lists: a single triplet (a capped or two-collection search can return just one)
     for trip in ([(0, 1, 1)], [(1, 0, 2)], [(2, 0, 1)], [(1, 2, 0)]):
         labels = ["n0", "n1", "n2"]
@@ -269,11 +277,13 @@ def run(chk):
     # TCR inputs in every accepted form with the DEFAULT metric (chosen as in pcDelta): alpha-only / beta-only / paired tables and
     # the legacy (alphas, betas) tuple; one label per input row in input order
     from Levenshtein import distance as levd_
-    for _ in range(10 if not thorough else 80):
-        n = rng.randint(2, 9)
+    for it_t in range(10 if not thorough else 80):
+        n = rng.randint(2, 9) if it_t >= 5 else rng.randint(4, 8)
         al = [gen.mutate(rng, rng.choice(["CAVR", "CAAAA"]), "ACDV", rng.randint(0, 2)) or "C" for _ in range(n)]
         be = [gen.mutate(rng, rng.choice(["CASSL", "CQQQQQ"]), "ACSQL", rng.randint(0, 2)) or "C" for _ in range(n)]
-        form = rng.choice(["alpha-table", "beta-table", "paired-table", "tuple", "tuple-of-series"])
+        form = rng.choice(["alpha-table", "beta-table", "paired-table", "tuple", "tuple-of-series", "tuple-of-series-other-labels"])
+        if it_t < 6:
+            form = ["alpha-table", "beta-table", "paired-table", "tuple", "tuple-of-series", "tuple-of-series-other-labels"][it_t]    # every form in every run
         idx = rng.sample(range(50), n)
         if form == "alpha-table":
             obj = pd.DataFrame({"CDR3A": al, "x": range(n)}, index=idx)
@@ -283,8 +293,11 @@ def run(chk):
             obj = pd.DataFrame({"CDR3A": al, "CDR3B": be}, index=idx)
         elif form == "tuple":
             obj = (al, be)
-        else:
+        elif form == "tuple-of-series":
             obj = (pd.Series(al, index=idx), pd.Series(be, index=idx))
+        else:
+            # the two chains as Series carrying the SAME labels in a different order: chains are paired by position, like lists
+            obj = (pd.Series(al, index=idx), pd.Series(be, index=idx[1:] + idx[:1]))
         da = [levd_(al[i], al[j]) for i in range(n) for j in range(i + 1, n)]
         db = [levd_(be[i], be[j]) for i in range(n) for j in range(i + 1, n)]
         vec = np.array(da if form == "alpha-table" else (db if form == "beta-table" else [x + y for x, y in zip(da, db)]), dtype=float)
